@@ -299,6 +299,8 @@ PROPS["C18"]["mc"] = {"quick": [alg("NumAlgs.tla", "NumAlgs_fixed.cfg"), alg("Nu
                       "thorough": [alg("NumAlgs.tla", "NumAlgs_fixed.cfg"), alg("NumAlgs.tla", "NumAlgs_fixed9.cfg", workers=10), alg("NumAlgs.tla", "NumAlgs_old.cfg", expect_violation="NoOverflow")]}
 PROPS["C09"]["mc"] = {"quick": [alg("CastAlgs.tla", "CastAlgs_%d.cfg" % i, workers=2) for i in (2, 4, 9, 11)],
                       "thorough": [alg("CastAlgs.tla", "CastAlgs_%d.cfg" % i, workers=2) for i in range(1, 14)]}
+PROPS["C15"]["mc"] = {"quick": [alg("SliceAlgs.tla", "SliceAlgs_%d.cfg" % i, workers=4) for i in (2, 4, 5)],
+                      "thorough": [alg("SliceAlgs.tla", "SliceAlgs_%d.cfg" % i, workers=8) for i in range(1, 7)]}
 L2MC = {"dir": "mc", "module": "MC_L2.tla", "cfg": "MC_L2_b4.cfg", "workers": 6, "timeout": 3000}
 
 BEH_MODES = ["debug", "release"]
